@@ -28,6 +28,7 @@ type Obligation struct {
 	RawOut   string
 	QuerySz  int
 	HasQuant bool
+	caseAssumes []*Term // assumption list of the enumerated case this obligation belongs to
 }
 
 type InputVar struct {
@@ -94,6 +95,8 @@ type Ctx struct {
 	viaStack  []string
 	clk0      *Term
 	curFrame  *frame
+	caseTag   string
+	steps     int
 	splitting bool
 	curExecFrame *frame
 	defAxioms map[*ssa.Function]bool
@@ -150,7 +153,7 @@ func (c *Ctx) oblige(st *State, kind, text string, pos token.Pos, cond *Term) {
 	if len(c.viaStack) > 0 {
 		base += ":in(" + c.viaStack[len(c.viaStack)-1] + ")"
 	}
-	name := base + ":" + kind + ":" + text
+	name := base + ":" + kind + ":" + text + c.caseTag
 	if c.oblCount == nil {
 		c.oblCount = map[string]int{}
 	}
@@ -159,7 +162,8 @@ func (c *Ctx) oblige(st *State, kind, text string, pos token.Pos, cond *Term) {
 	if n > 0 {
 		name = fmt.Sprintf("%s#%d", name, n)
 	}
-	o := &Obligation{Name: name, Kind: kind, Fn: c.FnName, NAssume: len(c.assumes), PC: pc, Cond: cond, Props: c.Props, Inputs: c.inputs}
+	goal := skolemizeGoal(cond, 0)
+	o := &Obligation{Name: name, Kind: kind, Fn: c.FnName, NAssume: len(c.assumes), PC: pc, Cond: goal, Props: c.Props, Inputs: c.inputs}
 	if pos.IsValid() {
 		o.Pos = c.W.Fset.Position(pos)
 	}
@@ -499,4 +503,47 @@ func (c *Ctx) obligeCase1(st *State, kind, text string, hyp, cond *Term) {
 		c.oblige(sub, kind, text, 0, cond)
 	}
 	c.assumes = c.assumes[:n]
+}
+
+// skolemizeGoal replaces the universally quantified variables of a goal
+// (forall at the top, or in positive position under or/and) by fresh
+// constants: proving the instance for arbitrary constants is the same
+// obligation, and it keeps the query quantifier-free when the hypotheses are.
+func skolemizeGoal(t *Term, depth int) *Term {
+	if depth > 8 {
+		return t
+	}
+	switch t.Op {
+	case "forall":
+		m := map[*Term]*Term{}
+		for _, b := range t.Bound {
+			m[b] = Fresh("sk."+b.Name, b.S)
+		}
+		return skolemizeGoal(Subst(t.Args[0], m), depth+1)
+	case "or":
+		args := make([]*Term, len(t.Args))
+		ch := false
+		for i, a := range t.Args {
+			args[i] = skolemizeGoal(a, depth+1)
+			if args[i] != a {
+				ch = true
+			}
+		}
+		if ch {
+			return Or(args...)
+		}
+	case "and":
+		args := make([]*Term, len(t.Args))
+		ch := false
+		for i, a := range t.Args {
+			args[i] = skolemizeGoal(a, depth+1)
+			if args[i] != a {
+				ch = true
+			}
+		}
+		if ch {
+			return And(args...)
+		}
+	}
+	return t
 }
